@@ -193,9 +193,17 @@ pub fn write_relation(r: &mut Rng, o: &ROpts, m: &MRel, feats: &mut Vec<&'static
     if let Some((op, v)) = &m.version {
         s.push_str(comp_ws(r, o.ws_level, feats));
         s.push('(');
+        if o.ws_level >= 2 && r.chance(1, 8) {
+            s.push(' ');
+            feats.push("blank-inside-parens");
+        }
         s.push_str(op);
         s.push_str(if o.ws_level >= 2 && r.chance(1, 4) { "" } else { " " });
         s.push_str(v);
+        if o.ws_level >= 2 && r.chance(1, 8) {
+            s.push_str(if r.chance(1, 3) { "\t" } else { " " });
+            feats.push("blank-inside-parens");
+        }
         s.push(')');
         feats.push("version");
         if v.contains(':') {
@@ -208,6 +216,11 @@ pub fn write_relation(r: &mut Rng, o: &ROpts, m: &MRel, feats: &mut Vec<&'static
     if let Some(a) = &m.archs {
         s.push_str(comp_ws(r, o.ws_level, feats));
         s.push('[');
+        let pad = o.ws_level >= 2 && r.chance(1, 8);
+        if pad {
+            s.push(' ');
+            feats.push("blank-inside-brackets");
+        }
         for (i, (neg, a)) in a.iter().enumerate() {
             if i > 0 {
                 if o.inner_newlines && r.chance(1, 4) {
@@ -223,12 +236,20 @@ pub fn write_relation(r: &mut Rng, o: &ROpts, m: &MRel, feats: &mut Vec<&'static
             }
             s.push_str(a);
         }
+        if pad {
+            s.push(' ');
+        }
         s.push(']');
         feats.push("archs");
     }
     for g in &m.profiles {
         s.push_str(comp_ws(r, o.ws_level, feats));
         s.push('<');
+        let pad = o.ws_level >= 2 && r.chance(1, 8);
+        if pad {
+            s.push(' ');
+            feats.push("blank-inside-brackets");
+        }
         for (i, (neg, a)) in g.iter().enumerate() {
             if i > 0 {
                 if o.inner_newlines && r.chance(1, 4) {
@@ -243,6 +264,9 @@ pub fn write_relation(r: &mut Rng, o: &ROpts, m: &MRel, feats: &mut Vec<&'static
                 s.push('!');
             }
             s.push_str(a);
+        }
+        if pad {
+            s.push(' ');
         }
         s.push('>');
         feats.push("profiles");
